@@ -1187,3 +1187,19 @@ def split_tuple_assignments(fn) -> int:
             i += len(new) - 1
             count += 1
     return count
+
+
+def merge_nested_withs(fn) -> int:
+    """`with a:` / `    with b: B`  ->  `with a, b: B`  (the outer block contains nothing but the inner one)"""
+    count = 0
+    changed = True
+    while changed:
+        changed = False
+        for x in ast.walk(fn):
+            if isinstance(x, (ast.With, ast.AsyncWith)) and len(x.body) == 1 and type(x.body[0]) is type(x):
+                inner = x.body[0]
+                x.items = x.items + inner.items
+                x.body = inner.body
+                count += 1
+                changed = True
+    return count
